@@ -48,11 +48,16 @@ def resource_site(data):
         txt = data.decode(errors="replace")
     except AttributeError:
         txt = data
+    total = 0
     for mm in re.finditer(r"<(?:\w+:)?type\b[^>]*>", txt):
         tag = mm.group(0)
-        lm = re.search(r'length="(\d+)"', tag)
-        if lm and int(lm.group(1)) >= 10 ** 7 and 'presence="constant"' in tag:
-            return "char-constant-huge-length"
+        lm = re.search(r'length\s*=\s*["\'](\d+)["\']', tag)
+        if lm and re.search(r'presence\s*=\s*["\']constant["\']', tag):
+            # the known defect costs time and memory proportional to the constant's length, so many long constants
+            # in one file are the same cause as one huge constant
+            total += int(lm.group(1))
+    if total >= 10 ** 7:
+        return "char-constant-huge-length"
     return "?"
 
 
@@ -131,6 +136,152 @@ def argv_cases(valid_xml_path, workdir):
     return cases
 
 
+FUZZ_DICT = ['<type ', '<composite ', '<enum ', '<set ', '<ref ', '<field ', '<group ', '<data ', '<validValue ', '<choice ',
+             '<types>', '</types>', '<sbe:message ', '<sbe:messageSchema ', '<xi:include ', '<include ', 'name="', 'type="',
+             'primitiveType="', 'encodingType="', 'presence="constant"', 'presence="optional"', 'presence="required"',
+             'length="', 'offset="', 'blockLength="', 'dimensionType="', 'valueRef="', 'minValue="', 'maxValue="',
+             'nullValue="', 'sinceVersion="', 'deprecated="', 'byteOrder="bigEndian"', 'characterEncoding="',
+             'semanticType="', 'description="', 'headerType="', 'id="', 'version="', 'package="', 'href="',
+             'uint8', 'uint16', 'uint32', 'uint64', 'int8', 'int16', 'int32', 'int64', 'char', 'float', 'double',
+             'numInGroup', 'varData', 'messageHeader', 'groupSizeEncoding', 'templateId', 'schemaId', 'NaN',
+             '18446744073709551615', '-9223372036854775808', '4294967296', '0', '{}', '&#0;', '<![CDATA[', '<?include '] + \
+            ['href="%s"' % n for n in sorted(M.INCLUDE_FILES)]
+
+
+def fuzz_leg(rep, bases, work, san_exe, san_env, total_runs, workers):
+    """Coverage-guided leg: libFuzzer drives the in-process sbeppc (rt/fuzz_main.cpp) from the valid schemas.
+    Every artifact is re-run (a) through the ordinary one-process-per-input monitor on the g++ sanitizer build and,
+    if that run satisfies the property, (b) in a fresh process of the fuzz binary itself; only a reproduced failure is
+    reported, an artifact that does not reproduce in a fresh process is an effect of running many inputs in one
+    process (sbeppc's contract is per invocation) and is only counted."""
+    fz = build.sbeppc_fuzz()
+    root = os.path.join(work, "fuzz")
+    seeds = os.path.join(root, "seeds")
+    corp = os.path.join(root, "corpus")
+    art = os.path.join(root, "art")
+    cwd = os.path.join(root, "cwd")
+    for d in (seeds, corp, art, cwd, os.path.join(cwd, "incdir")):
+        os.makedirs(d)
+    for n, t in M.INCLUDE_FILES.items():
+        C.write_file(os.path.join(cwd, n), t)
+    for i, (n, x) in enumerate(bases):
+        C.write_file(os.path.join(seeds, "s%03d.xml" % i), x)
+    dic = os.path.join(root, "dict.txt")
+    C.write_file(dic, "".join('"%s"\n' % w.replace("\\", "\\\\").replace('"', '\\"') for w in FUZZ_DICT))
+    env = dict(san_env)
+    env["ASAN_OPTIONS"] = "abort_on_error=1:detect_leaks=0:quarantine_size_mb=8:detect_stack_use_after_return=0"
+    env["UBSAN_OPTIONS"] = "print_stacktrace=1:halt_on_error=1"
+    shm = "/dev/shm"
+    ftmp = os.path.join(shm, "verif-c09-%d" % os.getpid()) if os.access(shm, os.W_OK) else os.path.join(root, "tmp")
+    os.makedirs(ftmp)
+    env["VRT_FUZZ_TMP"] = ftmp
+    per_worker = max(1, total_runs // workers)
+    stats = {"execs": 0, "cov": 0, "ft": 0, "restarts": 0, "artifacts": 0, "unreproduced": 0}
+    seen_art = set()
+
+    def triage(path):
+        data = open(path, "rb").read()
+        jd = os.path.join(root, "triage", os.path.basename(path))
+        od = os.path.join(jd, "out")
+        os.makedirs(od)
+        xp = os.path.join(jd, "schema.xml")
+        with open(xp, "wb") as f:
+            f.write(data)
+        v = None
+        for t in (TIMEOUT, TIMEOUT * 3):
+            rc, o, _, to = C.run([san_exe, "--output-dir", od, xp], timeout=t, env=san_env, cwd=cwd)
+            out = o.decode(errors="replace")
+            v = classify(rc, to, out, od, data)
+            if not (v and v[0] == "hang"):
+                break
+        how = "sbeppc-san --output-dir out schema.xml"
+        if not v:
+            e2 = dict(env)
+            e2["VRT_FUZZ_TMP"] = jd
+            rc, o, _, to = C.run([fz, "-timeout=%d" % (TIMEOUT * 3), "-rss_limit_mb=3500", xp], timeout=TIMEOUT * 6, env=e2, cwd=cwd)
+            out = o.decode(errors="replace")
+            how = "sbeppc-fuzz (clang, in-process main) schema.xml"
+            if "VRT-LEFTOVER" in out:
+                v = ("leftover-files", "in-process", out[-400:])
+            elif to or "ERROR: libFuzzer: timeout" in out:
+                v = ("hang", resource_site(data), "libFuzzer timeout in a fresh process")
+            elif "ERROR: libFuzzer: out-of-memory" in out:
+                v = ("asan:out-of-memory", resource_site(data), out[-400:])
+            elif rc != 0:
+                od2 = os.path.join(jd, "none")
+                v = classify(-6 if rc in (None, 134) or (rc and rc < 0) else rc, False, out, od2, data) or \
+                    ("crash", top_frame(out), out[-600:])
+        shutil.rmtree(jd, ignore_errors=True)
+        return data, v, how, out
+
+    def worker(w):
+        done, restarts, logs = 0, 0, []
+        last = (0, 0)
+        while done < per_worker and restarts <= 25:
+            lp = os.path.join(root, "w%d.%d.log" % (w, restarts))
+            seed = (rep.seed * 1000003 + w * 101 + restarts) % (2 ** 31 - 1) + 1
+            cmd = [fz, corp, seeds, "-dict=" + dic, "-max_len=20000", "-runs=%d" % (per_worker - done), "-seed=%d" % seed,
+                   "-close_fd_mask=1", "-timeout=%d" % (TIMEOUT * 3), "-rss_limit_mb=3500", "-artifact_prefix=" + art + "/",
+                   "-print_final_stats=1", "-verbosity=1", "-reload=1"]
+            with open(lp, "wb") as lf:
+                p = __import__("subprocess").Popen(cmd, stdout=lf, stderr=lf, stdin=__import__("subprocess").DEVNULL,
+                                                    env=dict(os.environ, **env), cwd=cwd)
+                try:
+                    p.wait(timeout=6 * 3600)
+                except Exception:
+                    p.kill()
+                    p.wait()
+                    logs.append("watchdog")
+            txt = open(lp, "rb").read().decode(errors="replace")
+            mm = re.search(r"stat::number_of_executed_units:\s*(\d+)", txt)
+            n = int(mm.group(1)) if mm else 0
+            if not mm:
+                allr = re.findall(r"^#(\d+)\t", txt, re.M)
+                n = int(allr[-1]) if allr else 0
+            cv = re.findall(r"cov: (\d+) ft: (\d+)", txt)
+            if cv:
+                last = (max(last[0], int(cv[-1][0])), max(last[1], int(cv[-1][1])))
+            if "VRT-HARNESS" in txt:
+                raise C.HarnessError("fuzz target could not write its input: " + txt[-300:])
+            done += max(n, 1)
+            if p.returncode == 0 and mm:
+                break
+            restarts += 1
+        return done, last, restarts
+
+    try:
+        res = C.pmap(worker, list(range(workers)), workers=workers)
+    finally:
+        shutil.rmtree(ftmp, ignore_errors=True)
+    for done, last, restarts in res:
+        stats["execs"] += done
+        stats["cov"] = max(stats["cov"], last[0])
+        stats["ft"] = max(stats["ft"], last[1])
+        stats["restarts"] += restarts
+    arts = sorted(os.listdir(art))
+    stats["artifacts"] = len(arts)
+    for name, (data, v, how, out) in zip(arts, C.pmap(lambda a: triage(os.path.join(art, a)), arts)):
+        if not v:
+            stats["unreproduced"] += 1
+            C.log("[C09 fuzz] artifact %s did not reproduce in a fresh process (in-process state effect), %d bytes" % (name, len(data)))
+            continue
+        klass, site, summary = v
+        rep.violation(klass, site, "coverage-guided input %s: %s" % (name, summary[:500]),
+                      {"input_name": "libfuzzer:" + name, "schema_bytes_hex": data.hex()[:200000],
+                       "schema_text": data.decode(errors="replace")[:20000], "output": out[-3000:], "how": how})
+    rep.evaluation(stats["execs"])
+    rep.nontrivial("fuzz-cov", stats["cov"] // 50)
+    rep.cov["fuzz_executions"] = stats["execs"]
+    rep.cov["fuzz_edges_covered"] = stats["cov"]
+    rep.cov["fuzz_features"] = stats["ft"]
+    rep.cov["fuzz_corpus_units"] = len(os.listdir(corp))
+    rep.cov["fuzz_artifacts"] = stats["artifacts"]
+    rep.cov["fuzz_artifacts_not_reproduced_in_fresh_process"] = stats["unreproduced"]
+    rep.cov["fuzz_worker_restarts"] = stats["restarts"]
+    if stats["execs"] < total_runs // 2 or stats["cov"] < 3000:
+        rep.inconc("coverage-guided leg executed %d of %d planned inputs, %d edges" % (stats["execs"], total_runs, stats["cov"]))
+
+
 def main():
     rep = Report("C09", "exploration")
     quick = rep.tier == "quick"
@@ -145,7 +296,11 @@ def main():
              "dimensionType x every public name; numeric attribute forms; byteOrder) over corpus schemas, plus an argv grammar "
              "of ~45 command lines; every run executes the ASan+UBSan+assert build with its own output directory. An "
              "evaluation is one sbeppc run; distinct_nontrivial counts distinct (exit class, first diagnostic with "
-             "digits and names normalised) outcomes observed, i.e. distinct behaviours reached.")
+             "digits and names normalised) outcomes observed, i.e. distinct behaviours reached. Coverage-guided leg: libFuzzer "
+             "(clang, ASan+UBSan, asserts alive) runs sbeppc's real main() in-process from the same valid schemas with an SBE "
+             "token dictionary; every artifact (crash, abort, sanitizer report, timeout, oom, leftover files of a rejected "
+             "schema) is re-run in fresh processes and reported through the same classification; fuzz_executions, "
+             "fuzz_edges_covered and fuzz_features say how far it got.")
     try:
         cwd = os.path.join(work, "cwd")
         os.makedirs(os.path.join(cwd, "incdir"))
@@ -245,6 +400,9 @@ def main():
             elif rc not in (0, 1):
                 rep.violation("no-diagnostic", "argv:exit%s" % rc, "argv %r: unexpected exit status %s" % (argv, rc), {"argv": argv})
             rep.nontrivial("argv", ai)
+
+        # ---- coverage-guided leg (libFuzzer, in-process sbeppc)
+        fuzz_leg(rep, bases, work, exe, env, total_runs=(16 * 15000 if quick else 16 * 1500000), workers=min(16, C.NCPU))
     finally:
         for root, dirs, _ in os.walk(work):
             for d in dirs:
